@@ -28,6 +28,11 @@ ALLOWED_AXIOMS = {
 }
 
 
+def axiom_allowed(a):
+    """Print Assumptions prints the shortest unambiguous name of an axiom"""
+    return any(full == a or full.endswith("." + a) for full in ALLOWED_AXIOMS)
+
+
 def log(*a):
     print(*a, file=sys.stderr, flush=True)
 
@@ -195,14 +200,14 @@ def coq_properties(prop):
         if b.startswith("Closed under"):
             theorems.append((nm, []))
         else:
-            ax = re.findall(r"^([A-Za-z0-9_.']+)\s*:", b, re.M)
+            ax = [a for a in re.findall(r"^([A-Za-z0-9_.']+)\s*:", b, re.M) if a != "Axioms"]
             theorems.append((nm, ax))
             for a in ax:
-                if a not in ALLOWED_AXIOMS:
+                if not axiom_allowed(a):
                     bad_axioms.append((nm, a))
     missing = [t for t in thms if t not in names]
     ok = (p.returncode == 0 and len(blocks) == len(names) and not bad_axioms and not missing and len(names) > 0)
-    return dict(ok=ok, obligations=len(names), discharged=len([t for t in theorems if all(a in ALLOWED_AXIOMS for a in t[1])]) if p.returncode == 0 else min(len(blocks), len(names)),
+    return dict(ok=ok, obligations=len(names), discharged=len([t for t in theorems if all(axiom_allowed(a) for a in t[1])]) if p.returncode == 0 else min(len(blocks), len(names)),
                 theorems=theorems, bad_axioms=bad_axioms, unprinted=missing,
                 log=(mlog[-3000:] if not ok_make else "") + p.stdout[-2000:] + p.stderr[-4000:],
                 checker_cmd="cd /verif/coq && make -k Properties_%s.vo && coqc -Q . BS %s  (Print Assumptions under every theorem)" % (prop, fn))
